@@ -517,7 +517,15 @@ func (c *compiler) evalIdentifier(node *ast.Identifier) (interface{}, error) {
 			return nil, fmt.Errorf("'%s' does not have a field or method named '%s' (%s)", node.Callee.String(), node.Value, node)
 		}
 
-		f := rv.FieldByName(node.Value)
+		var f reflect.Value
+		if sf, ok := rv.Type().FieldByName(node.Value); ok {
+			var ferr error
+			f, ferr = rv.FieldByIndexErr(sf.Index)
+			if ferr != nil {
+				// the field is promoted from an embedded pointer that is nil
+				return nil, nil
+			}
+		}
 		if f.Kind() == reflect.Ptr {
 			if f.IsNil() {
 				return nil, nil
